@@ -5576,6 +5576,10 @@ class PyCdlib:
 
         self.eltorito_boot_catalog = None
 
+        # The hybrid boot sector starts the El Torito boot file, so it goes
+        # away together with El Torito (add_isohybrid requires El Torito).
+        self.isohybrid_mbr = None
+
         self._finish_remove(num_bytes_to_remove, True)
 
     def add_symlink(self, symlink_path=None, rr_symlink_name=None, rr_path=None,
